@@ -35,7 +35,17 @@ def run(job):
           prod.derive_unit_from(u1[5], u2[2])]
     pu.append(prod.new_unit(W.uid("tu"), define_as=Term(((u1[1], 1), (u2[2], 1),
                                                          (Decimal(5), 1)))))
-    groups = [list(c.units()) for c in classes] + [u1, u2, pu]
+    # units declared by unit terms whose numeric factor carries an exponent
+    # other than 1 (jiffy = s / 60), and units chained on top of them
+    c3, u3 = W.linear_type([Decimal(1000)])
+    r3 = u3[0]
+    for items in (((Decimal(60), -1), (r3, 1)), ((Fraction(3, 2), 2), (r3, 1)),
+                  ((2, 3), (u3[1], 1)), ((r3, 1), (Decimal(4), -2)),
+                  ((Decimal(10), -1), (u3[1], 1), (3, 2))):
+        u3.append(c3.new_unit(W.uid("tq"), define_as=Term(items)))
+    u3.append(c3.new_unit(W.uid("tq"), define_as=Decimal(1000) * u3[2]))
+    u3.append(c3.new_unit(W.uid("tq"), define_as=Fraction(1, 3) * u3[3]))
+    groups = [list(c.units()) for c in classes] + [u1, u2, pu, u3]
     job.bound = (f"{len(groups)} linear types, all ordered unit pairs "
                  f"(triples on a sample), {len(W.amounts_grid(job.extra))} amounts")
     # base case of wf_unit
